@@ -5,7 +5,7 @@
    transaction, conforming answers computed from the U3V wire layout by offsets and optionally
    edited, raw answers, libusb errors).  Uses the command/acknowledge codec models of C09/C08
    and the chunk iterators of C10. *)
-From Cam Require Export Outcome Bytes Chunks Cmd Ack.
+From Cam Require Export Outcome Bytes Chunks Cmd Ack CmdLayout GenCPLayout.
 
 (* ---- ControlError classes -------------------------------------------------------------- *)
 Definition CE_BUSY : Z := 1.
@@ -59,41 +59,45 @@ Fixpoint seg_write (segs : list (Z * list Z)) (a : Z) (data : list Z) : option (
     else match seg_write r a data with Some r' => Some ((b, m) :: r') | None => None end
   end.
 
-Definition le_at (off n : nat) (bs : list Z) : Z := of_le (firstn n (skipn off bs)).
 
-Definition dev_ack (status id rid : Z) (scd : list Z) : list Z :=
-  le_bytes 4 1129722709 ++ le_bytes 2 status ++ le_bytes 2 id ++ le_bytes 2 (zlen scd) ++ le_bytes 2 rid ++ scd.
+Definition w_set_rid (w : world) (rid : Z) : world :=
+  {| w_segs := w_segs w; w_plans := w_plans w; w_replies := w_replies w; w_cur_ack := w_cur_ack w;
+     w_cur_rid := rid; w_log := w_log w; w_open_err := w_open_err w; w_writes := w_writes w |}.
 
-(* the conforming device: decode by offsets, apply, answer.  Returns (ack, world'). *)
+(* the conforming device: decode the command with the typed layout decoder of the U3V
+   specification (spec/CmdLayout.v), apply it to memory, answer per GenCP.  Anything that is not
+   a well-formed ReadMem / WriteMem command gets an error acknowledge computed from the raw
+   header fields.  Returns (ack, world'). *)
 Definition conform (w : world) (cmd : list Z) : list Z * world :=
-  if (zlen cmd <? 12) || negb (le_at 0 4 cmd =? 1129722709) then (dev_ack 32770 0 0 [], w) else
-  let cmd_id := le_at 6 2 cmd in let scd_len := le_at 8 2 cmd in let rid := le_at 10 2 cmd in
-  let w := {| w_segs := w_segs w; w_plans := w_plans w; w_replies := w_replies w; w_cur_ack := w_cur_ack w;
-              w_cur_rid := rid; w_log := w_log w; w_open_err := w_open_err w; w_writes := w_writes w |} in
-  if negb (zlen cmd =? 12 + scd_len) then (dev_ack 32770 (wrapu 16 (cmd_id + 1)) rid [], w) else
-  let scd := skipn 12 cmd in
-  if cmd_id =? 2048 then
-    if negb (zlen scd =? 12) then (dev_ack 32770 2049 rid [], w) else
-    match seg_read (w_segs w) (le_at 0 8 scd) (le_at 10 2 scd) with
-    | Some d => (dev_ack 0 2049 rid d, w)
-    | None => (dev_ack 32771 2049 rid [], w)
+  match spec_decode cmd with
+  | Some (DRead a n, rid) =>
+    match seg_read (w_segs w) a n with
+    | Some d => (enc_ack 0 2049 rid d, w_set_rid w rid)
+    | None => (enc_ack 32771 2049 rid [], w_set_rid w rid)
     end
-  else if cmd_id =? 2050 then
-    if zlen scd <? 8 then (dev_ack 32770 2051 rid [], w) else
-    let a := le_at 0 8 scd in let data := skipn 8 scd in
+  | Some (DWrite a data, rid) =>
     match seg_write (w_segs w) a data with
     | Some segs' =>
-      (dev_ack 0 2051 rid (le_bytes 2 0 ++ le_bytes 2 (zlen data)),
+      (enc_ack 0 2051 rid (enc_write_scd (zlen data)),
        {| w_segs := segs'; w_plans := w_plans w; w_replies := w_replies w; w_cur_ack := w_cur_ack w;
           w_cur_rid := rid; w_log := w_log w; w_open_err := w_open_err w;
           w_writes := (a, data) :: w_writes w |})
     | None =>
-      (dev_ack 32771 2051 rid [],
+      (enc_ack 32771 2051 rid [],
        {| w_segs := w_segs w; w_plans := w_plans w; w_replies := w_replies w; w_cur_ack := w_cur_ack w;
           w_cur_rid := rid; w_log := w_log w; w_open_err := w_open_err w;
           w_writes := (a, data) :: w_writes w |})
     end
-  else (dev_ack 32769 (wrapu 16 (cmd_id + 1)) rid [], w).
+  | _ =>
+    if (zlen cmd <? 12) || negb (le_at 0 4 cmd =? 1129722709) then (enc_ack 32770 0 0 [], w) else
+    let cmd_id := le_at 6 2 cmd in let rid := le_at 10 2 cmd in
+    let w := w_set_rid w rid in
+    if negb (zlen cmd =? 12 + le_at 8 2 cmd) || negb (le_at 4 2 cmd =? 16384)
+    then (enc_ack 32770 (wrapu 16 (cmd_id + 1)) rid [], w)
+    else if cmd_id =? 2048 then (enc_ack 32770 2049 rid [], w)
+    else if cmd_id =? 2050 then (enc_ack 32770 2051 rid [], w)
+    else (enc_ack 32769 (wrapu 16 (cmd_id + 1)) rid [], w)
+  end.
 
 Definition default_plan : txplan := {| tp_send_err := None; tp_replies := [RConform []] |}.
 
@@ -132,7 +136,7 @@ Definition on_recv (w : world) (buflen : Z) : outcome (list Z) * world :=
     | RRecvErr e => (Err e, w_logev w WRecvFail)
     | _ =>
       let bytes := match r with
-                   | RPending ms => dev_ack 0 2053 (w_cur_rid w) (le_bytes 2 0 ++ le_bytes 2 ms)
+                   | RPending ms => enc_ack 0 2053 (w_cur_rid w) (enc_write_scd ms)
                    | RConform es => fold_left apply_edit es (w_cur_ack w)
                    | RRaw b => b
                    | RRecvErr _ => []
